@@ -88,17 +88,17 @@ type subScenario struct {
 var subClock int64 = 1000
 
 type subEnv struct {
-	w    *trace.Writer
-	emu  sync.Mutex
-	c    *cache.Cache
-	srv  *subscribe.Server
-	sc   subScenario
-	runs map[string]*subRun
-	fmu  sync.Mutex
-	fed  map[string][]trace.E // feed entries per target, collected during a writer call
-	pools map[string]pathPool // one per writer (target)
-	sent int64 // sentinel counter
-	hung bool
+	w     *trace.Writer
+	emu   sync.Mutex
+	c     *cache.Cache
+	srv   *subscribe.Server
+	sc    subScenario
+	runs  map[string]*subRun
+	fmu   sync.Mutex
+	fed   map[string][]trace.E // feed entries per target, collected during a writer call
+	pools map[string]pathPool  // one per writer (target)
+	sent  int64                // sentinel counter
+	hung  bool
 }
 
 // emit serialises emission: file order is a real-time order.
@@ -660,9 +660,9 @@ func (e *subEnv) othersProgress() {
 }
 
 func (r *subRun) getQueue() *coalesce.Queue { r.mu.Lock(); defer r.mu.Unlock(); return r.queue }
-func (r *subRun) isEnded() bool   { r.mu.Lock(); defer r.mu.Unlock(); return r.ended }
-func (r *subRun) isStalled() bool { r.mu.Lock(); defer r.mu.Unlock(); return r.stalled && r.gateShut }
-func (r *subRun) inSend() bool    { r.mu.Lock(); defer r.mu.Unlock(); return r.stalled }
+func (r *subRun) isEnded() bool             { r.mu.Lock(); defer r.mu.Unlock(); return r.ended }
+func (r *subRun) isStalled() bool           { r.mu.Lock(); defer r.mu.Unlock(); return r.stalled && r.gateShut }
+func (r *subRun) inSend() bool              { r.mu.Lock(); defer r.mu.Unlock(); return r.stalled }
 
 func (e *subEnv) sortedRuns() []*subRun {
 	names := []string{}
